@@ -19,11 +19,13 @@ func BytesAsUint64
   props C05 C13 C15
   requires len(b) >= 8
   ensures be64(result) == bytes(b[0:8])
+  ensures C13/the-number-these-bytes-encode: result == u64of(bytes(b[0:8]))
 
 func BytesAsUint16
   props C13
   requires len(b) >= 2
   ensures be16(result) == bytes(b[0:2])
+  ensures C13/the-number-these-bytes-encode: result == u16of(bytes(b[0:2]))
 
 // AddPaddingToBytes: an input that is already at least n bytes long (or whose
 // length in 8-byte words reaches n) is returned as is; a shorter one is
